@@ -103,6 +103,9 @@ type Dataset struct {
 }
 
 func (d Dataset) T0() int64 {
+	if d.Kind == "cal" {
+		return calT0
+	}
 	if d.Place == "straddle" {
 		return mini.Base + mini.Hour - int64(d.N/2)
 	}
@@ -117,6 +120,9 @@ type seriesDef struct {
 
 func (d Dataset) series() []seriesDef {
 	var out []seriesDef
+	if d.Kind == "cal" {
+		return calSeries()
+	}
 	if d.Kind == "big" {
 		for i, offs := range [][]int64{{0}, {0, 999, 1000, 1001}, {5, 1999, 2000, 2400}} {
 			sd := seriesDef{Name: fmt.Sprintf("big%d", i), Offs: offs}
@@ -157,14 +163,39 @@ type Req struct {
 	CE    bool   `json:"create_empty"`
 	TC    string `json:"time_column"`
 	Force bool   `json:"force_aggregate"`
+	// calendar family: EveryMo > 0 = a window of whole calendar months (then Every is 0, as in the request message);
+	// the window offset is OffMo months + Off nanoseconds.
+	EveryMo int64 `json:"every_months,omitempty"`
+	OffMo   int64 `json:"offset_months,omitempty"`
+	// Form: "" = storage/flux reader (ReadWindowAggregate); "store-every" / "store-window" = reads.Store.WindowAggregate
+	// called directly with the window given as WindowEvery/Offset int64 resp. as a Window message.
+	Form string `json:"form,omitempty"`
 }
+
+// inf: the un-windowed form (every = math.MaxInt64 ns).
+func (r Req) inf() bool { return r.Every == 0 && r.EveryMo == 0 }
 
 func (r Req) String() string {
 	ev := fmt.Sprint(r.Every)
-	if r.Every == 0 {
+	if r.inf() {
 		ev = "inf"
 	}
-	return fmt.Sprintf("%s(%s) bounds=[T0%+d,T0%+d) every=%s offset=%d createEmpty=%v timeColumn=%q forceAggregate=%v", r.Agg, r.Field, r.A, r.B, ev, r.Off, r.CE, r.TC, r.Force)
+	if absT0 == 0 && r.Form == "" {
+		return fmt.Sprintf("%s(%s) bounds=[T0%+d,T0%+d) every=%s offset=%d createEmpty=%v timeColumn=%q forceAggregate=%v", r.Agg, r.Field, r.A, r.B, ev, r.Off, r.CE, r.TC, r.Force)
+	}
+	off := fmt.Sprintf("%dns", r.Off)
+	if r.EveryMo > 0 {
+		ev = fmt.Sprintf("%dmo", r.EveryMo)
+	} else if !r.inf() {
+		ev = time.Duration(r.Every).String()
+	}
+	if r.OffMo > 0 {
+		off = fmt.Sprintf("%dmo+%dns", r.OffMo, r.Off)
+	}
+	if r.Form != "" {
+		return fmt.Sprintf("%s(%s) range=[%s,%s) every=%s offset=%s request-form=%s", r.Agg, r.Field, ft(r.A), ft(r.B), ev, off, r.Form)
+	}
+	return fmt.Sprintf("%s(%s) bounds=[%s,%s) every=%s offset=%s createEmpty=%v timeColumn=%q forceAggregate=%v", r.Agg, r.Field, ft(r.A), ft(r.B), ev, off, r.CE, r.TC, r.Force)
 }
 
 func isSelector(agg string) bool { return agg == "first" || agg == "last" || agg == "min" || agg == "max" }
@@ -172,6 +203,8 @@ func isSelector(agg string) bool { return agg == "first" || agg == "last" || agg
 // impl names the table implementation windowAggregateIterator.handleRead picks for the request.
 func impl(r Req) string {
 	switch {
+	case r.Form != "":
+		return "Store-cursor"
 	case !isSelector(r.Agg):
 		return "WindowTable-aggregate"
 	case r.Force:
@@ -194,22 +227,35 @@ type Case struct {
 // enumeration families
 
 func datasets(thorough bool) []Dataset {
+	// the calendar datasets come last so that the case indices of the older families do not move
 	if !thorough {
 		return []Dataset{
 			{Kind: "masks", N: 6, Place: "straddle", Layout: "mixed"},
 			{Kind: "big", Place: "single", Layout: "mixed"},
+			{Kind: "cal", Place: "months", Layout: "mixed"},
 		}
 	}
 	return []Dataset{
 		{Kind: "masks", N: 8, Place: "straddle", Layout: "mixed"},
 		{Kind: "masks", N: 7, Place: "single", Layout: "tsm"},
 		{Kind: "big", Place: "single", Layout: "mixed"},
+		{Kind: "cal", Place: "months", Layout: "mixed"},
+		{Kind: "cal", Place: "months", Layout: "tsm"},
 	}
 }
 
 func blockSizes(ds Dataset, thorough bool) []int {
 	if ds.Kind == "big" {
 		return []int{shippedM}
+	}
+	if ds.Kind == "cal" {
+		if !thorough {
+			return []int{shippedM}
+		}
+		if ds.Layout == "tsm" {
+			return []int{smallM}
+		}
+		return []int{smallM, shippedM}
 	}
 	if thorough && ds.N != 8 {
 		return []int{smallM}
@@ -237,6 +283,9 @@ type wcfg struct{ every, off int64 }
 
 // requests of one dataset, simplest first (narrow bounds first).
 func requests(ds Dataset, thorough bool, M int) []Req {
+	if ds.Kind == "cal" {
+		return calRequests(thorough, M)
+	}
 	var bounds [][2]int64
 	var wins []wcfg
 	fields := allFields
@@ -287,6 +336,276 @@ func requests(ds Dataset, thorough bool, M int) []Req {
 }
 
 // ---------------------------------------------------------------------------------------------------------
+// calendar family: windows of whole calendar months over points at month / year / leap-day boundaries
+
+// calT0 = 1999-12-01T00:00:00Z; calShardGroup: 80-day shard groups have a boundary at 2000-02-11, so the data
+// (1999-11-30T23:59:59.999999999Z .. 2000-04-01T00:00:00.000000001Z) lies in exactly two shard groups and the
+// February windows straddle them.
+var calT0 = time.Date(1999, 12, 1, 0, 0, 0, 0, time.UTC).UnixNano()
+
+const calShardGroup = 80 * 24 * time.Hour
+
+func calRel(y int, m time.Month, d, h int, ns int64) int64 {
+	return time.Date(y, m, d, h, 0, 0, 0, time.UTC).UnixNano() + ns - calT0
+}
+
+// calInstants: position 3i+j = boundary i + (j-1) ns for the boundaries 1999-12-01, 2000-01-01 (year), 2000-02-01,
+// 2000-02-29 (leap day), 2000-03-01, 2000-04-01; positions 18..21 = noon of the 15th of Dec, Jan, Feb, Mar.
+func calInstants() []int64 {
+	var out []int64
+	for _, b := range [][3]int{{1999, 12, 1}, {2000, 1, 1}, {2000, 2, 1}, {2000, 2, 29}, {2000, 3, 1}, {2000, 4, 1}} {
+		for j := int64(-1); j <= 1; j++ {
+			out = append(out, calRel(b[0], time.Month(b[1]), b[2], 0, j))
+		}
+	}
+	for _, b := range [][2]int{{1999, 12}, {2000, 1}, {2000, 2}, {2000, 3}} {
+		out = append(out, calRel(b[0], time.Month(b[1]), 15, 12, 0))
+	}
+	return out
+}
+
+// calSeries: 53 series: every non-empty subset of {b-1ns, b, b+1ns} per boundary b (42), all points, all boundary
+// points, all b-1ns / b / b+1ns points, the mid-month points, and per period between two boundaries its first and last
+// nanosecond.
+func calSeries() []seriesDef {
+	inst := calInstants()
+	mk := func(name string, pos ...int) seriesDef {
+		sort.Ints(pos)
+		sd := seriesDef{Name: name}
+		for _, k := range pos {
+			sd.Offs = append(sd.Offs, inst[k])
+			sd.Pos = append(sd.Pos, k)
+		}
+		sort.SliceStable(sd.Pos, func(i, j int) bool { return inst[sd.Pos[i]] < inst[sd.Pos[j]] })
+		sort.Slice(sd.Offs, func(i, j int) bool { return sd.Offs[i] < sd.Offs[j] })
+		return sd
+	}
+	var out []seriesDef
+	for i := 0; i < 6; i++ {
+		for m := 1; m < 8; m++ {
+			var pos []int
+			for j := 0; j < 3; j++ {
+				if m>>j&1 == 1 {
+					pos = append(pos, 3*i+j)
+				}
+			}
+			out = append(out, mk(fmt.Sprintf("b%d-%d", i, m), pos...))
+		}
+	}
+	for i := 0; i < 5; i++ {
+		out = append(out, mk(fmt.Sprintf("span%d", i), 3*i+2, 3*(i+1)))
+	}
+	var all, edges, mid []int
+	col := [3][]int{}
+	for k := range inst {
+		all = append(all, k)
+		if k < 18 {
+			edges = append(edges, k)
+			col[k%3] = append(col[k%3], k)
+		} else {
+			mid = append(mid, k)
+		}
+	}
+	out = append(out, mk("minus", col[0]...), mk("at", col[1]...), mk("plus", col[2]...), mk("mid", mid...), mk("edges", edges...), mk("all", all...))
+	return out
+}
+
+// calBounds: query bounds [a,b) between instants of the dataset, narrow first.
+func calBounds(thorough bool) [][2]int64 {
+	l := []int64{
+		calRel(1999, 12, 1, 0, -1), calRel(1999, 12, 1, 0, 0), calRel(2000, 1, 1, 0, 0), calRel(2000, 1, 1, 0, 1), calRel(2000, 1, 15, 12, 0),
+		calRel(2000, 2, 29, 0, 0), calRel(2000, 3, 1, 0, 1), calRel(2000, 4, 1, 0, 0), calRel(2000, 4, 1, 0, 2),
+	}
+	var out [][2]int64
+	if thorough {
+		for i := range l {
+			for j := i + 1; j < len(l); j++ {
+				out = append(out, [2]int64{l[i], l[j]})
+			}
+		}
+	} else {
+		for _, ij := range [][2]int{{0, 8}, {1, 7}, {2, 6}, {3, 5}, {4, 7}, {0, 3}, {5, 8}, {1, 2}} {
+			out = append(out, [2]int64{l[ij[0]], l[ij[1]]})
+		}
+	}
+	sort.SliceStable(out, func(i, j int) bool { return out[i][1]-out[i][0] < out[j][1]-out[j][0] })
+	return out
+}
+
+type calWin struct{ every, everyMo, off, offMo int64 }
+
+const day = 24 * int64(time.Hour)
+
+// calRequests: (1) the Flux reader with calendar-month windows (and one 30-day nanosecond window as a control);
+// (2) reads.Store.WindowAggregate called directly with both request forms.
+func calRequests(thorough bool, M int) []Req {
+	bounds := calBounds(thorough)
+	var wins []calWin
+	for _, mo := range []int64{1, 2, 3, 12} {
+		wins = append(wins, calWin{0, mo, 0, 0}, calWin{0, mo, 0, 1})
+		if thorough {
+			wins = append(wins, calWin{0, mo, 1, 0})
+		}
+		wins = append(wins, calWin{0, mo, 1, 1})
+	}
+	wins = append(wins, calWin{30 * day, 0, 0, 0})
+	fields := []string{"f", "i", "s"}
+	if thorough {
+		fields = allFields
+	}
+	var out []Req
+	for _, bd := range bounds {
+		for _, w := range wins {
+			for _, x := range fieldAggs(fields) {
+				for _, ce := range []bool{false, true} {
+					for _, tc := range []string{"", "_start", "_stop"} {
+						for _, force := range []bool{false, true} {
+							if force && !isSelector(x.agg) {
+								continue
+							}
+							out = append(out, Req{A: bd[0], B: bd[1], Every: w.every, EveryMo: w.everyMo, Off: w.off, OffMo: w.offMo, Field: x.field, Agg: x.agg, CE: ce, TC: tc, Force: force})
+						}
+					}
+				}
+			}
+		}
+	}
+	if M != shippedM {
+		return out
+	}
+	// request forms (the store does not buffer by MaxPointsPerBlock windows here: run once, on the shipped size)
+	type fw struct {
+		form string
+		w    calWin
+	}
+	var fws []fw
+	for _, w := range []calWin{{30 * day, 0, 0, 0}, {30 * day, 0, 1, 0}, {7 * day, 0, 0, 0}, {0, 0, 0, 0}} {
+		fws = append(fws, fw{"store-every", w}, fw{"store-window", w})
+	}
+	for _, mo := range []int64{1, 2, 3, 12} {
+		fws = append(fws, fw{"store-window", calWin{0, mo, 0, 0}}, fw{"store-window", calWin{0, mo, 0, 1}}, fw{"store-window", calWin{0, mo, 1, 1}})
+	}
+	for _, bd := range bounds {
+		for _, x := range fws {
+			for _, fa := range fieldAggs(fields) {
+				out = append(out, Req{A: bd[0], B: bd[1], Every: x.w.every, EveryMo: x.w.everyMo, Off: x.w.off, OffMo: x.w.offMo, Field: fa.field, Agg: fa.agg, Form: x.form})
+			}
+		}
+	}
+	return out
+}
+
+var aggTypes = map[string]datatypes.Aggregate_AggregateType{
+	"count": datatypes.Aggregate_AggregateTypeCount, "sum": datatypes.Aggregate_AggregateTypeSum, "mean": datatypes.Aggregate_AggregateTypeMean,
+	"min": datatypes.Aggregate_AggregateTypeMin, "max": datatypes.Aggregate_AggregateTypeMax,
+	"first": datatypes.Aggregate_AggregateTypeFirst, "last": datatypes.Aggregate_AggregateTypeLast,
+}
+
+// storeWindow calls reads.Store.WindowAggregate (the call the Flux reader makes) directly, with the window in the form
+// r.Form names, and drains every series cursor: one rec (Store=true) per (time, value) pair, times relative to t0.
+func (h *harness) storeWindow(r Req) (map[string][]rec, int, error) {
+	req := &datatypes.ReadWindowAggregateRequest{
+		ReadSource: h.f.ReadSource(h.b),
+		Range:      &datatypes.TimestampRange{Start: h.t0 + r.A, End: h.t0 + r.B},
+		Predicate:  &datatypes.Predicate{Root: mini.TagEq("_field", r.Field)},
+		Aggregate:  []*datatypes.Aggregate{{Type: aggTypes[r.Agg]}},
+	}
+	every := r.Every
+	if r.inf() {
+		every = math.MaxInt64
+	}
+	switch r.Form {
+	case "store-every":
+		if r.EveryMo > 0 || r.OffMo > 0 {
+			return nil, 0, fmt.Errorf("harness: months cannot be expressed as WindowEvery")
+		}
+		req.WindowEvery, req.Offset = every, r.Off
+	case "store-window":
+		req.Window = &datatypes.Window{
+			Every:  &datatypes.Duration{Nsecs: every, Months: r.EveryMo},
+			Offset: &datatypes.Duration{Nsecs: r.Off, Months: r.OffMo},
+		}
+	default:
+		return nil, 0, fmt.Errorf("harness: unknown request form %q", r.Form)
+	}
+	rs, err := h.f.Reads.WindowAggregate(context.Background(), req)
+	if err != nil || rs == nil {
+		return map[string][]rec{}, 0, err
+	}
+	defer rs.Close()
+	out := map[string][]rec{}
+	n := 0
+	for rs.Next() {
+		n++
+		series := string(rs.Tags().Get([]byte("s")))
+		_, pts, _, err := mini.Drain(rs.Cursor())
+		if err != nil {
+			return out, n, err
+		}
+		for _, p := range pts {
+			if len(out[series]) > 64 {
+				return out, n, errRunaway
+			}
+			out[series] = append(out[series], rec{Store: true, HasRow: true, T: p.T - h.t0, V: p.V})
+		}
+	}
+	return out, n, rs.Err()
+}
+
+func judgeAny(t0 int64, r Req, raws []raw, obs []rec) []problem {
+	if r.Form != "" {
+		return judgeStore(t0, r, raws, obs)
+	}
+	return judge(t0, r, raws, obs)
+}
+
+// judgeStore: the series cursor of reads.Store.WindowAggregate must yield, in ascending window order, exactly one
+// (time, value) pair per window that contains a raw row: value = the aggregate of the window's raw rows; time = the
+// (unclipped) window stop for count/sum/mean and the time of a raw row carrying the value for the selectors. In the
+// un-windowed form (every = MaxInt64) the time of count/sum/mean is not judged.
+func judgeStore(t0 int64, r Req, raws []raw, obs []rec) []problem {
+	var probs []problem
+	seen := map[string]bool{}
+	bad := func(clause, f string, args ...any) {
+		if !seen[clause] {
+			seen[clause] = true
+			probs = append(probs, problem{clause, fmt.Sprintf(f, args...)})
+		}
+	}
+	wins := expWindows(t0, raws, r, false)
+	if len(obs) != len(wins) {
+		cl := "missing-window"
+		if len(obs) > len(wins) {
+			cl = "unexpected-window"
+		}
+		bad(cl, "the cursor yields %d pairs %s, expected one per non-empty window %s", len(obs), fmtRecs(obs), fmtWins(wins))
+		return probs
+	}
+	for i, w := range wins {
+		o := obs[i]
+		want := aggregate(r.Agg, w.Rows)
+		if !eqVal(o.V, want) {
+			bad("wrong-value", "window [%s,%s) with raw rows %s: the cursor yields %s, expected %s = %v (all pairs %s)", ft(w.US), ft(w.UE), fmtRaws(w.Rows), o, r.Agg, want, fmtRecs(obs))
+			continue
+		}
+		if isSelector(r.Agg) {
+			found := false
+			for _, p := range w.Rows {
+				if p.T == o.T && eqVal(p.V, o.V) {
+					found = true
+				}
+			}
+			if !found {
+				bad("selector-time", "window [%s,%s) with raw rows %s: the selected pair %s is not one of them", ft(w.US), ft(w.UE), fmtRaws(w.Rows), o)
+			}
+		} else if !r.inf() && o.T != w.UE {
+			bad("window-time", "window [%s,%s) with raw rows %s: the cursor yields %s, expected the window stop as its time", ft(w.US), ft(w.UE), fmtRaws(w.Rows), o)
+		}
+	}
+	return probs
+}
+
+// ---------------------------------------------------------------------------------------------------------
 // fixture
 
 type harness struct {
@@ -316,10 +635,18 @@ func load1(ds Dataset) (*harness, error) {
 	if err != nil {
 		return nil, err
 	}
-	b, err := f.CreateBucket("db0", 0)
+	var sgd time.Duration
+	if ds.Kind == "cal" {
+		sgd = calShardGroup
+	}
+	b, err := f.CreateBucket("db0", sgd)
 	if err != nil {
 		f.Close()
 		return nil, err
+	}
+	absT0 = 0
+	if ds.Kind == "cal" {
+		absT0 = ds.T0()
 	}
 	h := &harness{ds: ds, t0: ds.T0(), f: f, b: b, sers: ds.series(), byN: map[string]*seriesDef{}, raws: map[string]map[string][]raw{}}
 	for i := range h.sers {
@@ -371,6 +698,12 @@ func load1(ds Dataset) (*harness, error) {
 			}
 		}
 	}
+	if ds.Kind == "cal" {
+		if n := len(f.ShardIDs(b)); n != 2 {
+			f.Close()
+			return nil, fmt.Errorf("calendar dataset: %d shard groups, expected 2 (80-day groups with a boundary at 2000-02-11)", n)
+		}
+	}
 	h.rd = storageflux.NewReader(f.Reads)
 	return h, nil
 }
@@ -395,11 +728,30 @@ type rec struct {
 	T        int64
 	ValNull  bool
 	V        any
+	Store    bool // a (time, value) pair of a reads.Store cursor (request forms family), not a table row
+}
+
+// absT0 is 0 for the nanosecond-slot datasets (times are printed as offsets from T0) and the T0 of the loaded
+// calendar dataset otherwise (times are printed as UTC dates). Set by load1; a worker has one dataset at a time.
+var absT0 int64
+
+// ft formats a time that is relative to T0.
+func ft(t int64) string {
+	if absT0 == 0 {
+		return fmt.Sprint(t)
+	}
+	if t == nullTime {
+		return "null"
+	}
+	return time.Unix(0, absT0+t).UTC().Format(time.RFC3339Nano)
 }
 
 func (r rec) String() string {
+	if r.Store {
+		return fmt.Sprintf("{%s: %v}", ft(r.T), r.V)
+	}
 	if !r.HasRow {
-		return fmt.Sprintf("{empty table key=[%d,%d)}", r.KS, r.KE)
+		return fmt.Sprintf("{empty table key=[%s,%s)}", ft(r.KS), ft(r.KE))
 	}
 	v := "null"
 	if !r.ValNull {
@@ -409,10 +761,10 @@ func (r rec) String() string {
 	if r.HasTime {
 		t = "null"
 		if !r.TimeNull {
-			t = fmt.Sprint(r.T)
+			t = ft(r.T)
 		}
 	}
-	return fmt.Sprintf("{key=[%d,%d) _start=%d _stop=%d _time=%s _value=%s}", r.KS, r.KE, r.S, r.E, t, v)
+	return fmt.Sprintf("{key=[%s,%s) _start=%s _stop=%s _time=%s _value=%s}", ft(r.KS), ft(r.KE), ft(r.S), ft(r.E), t, v)
 }
 
 const nullTime = math.MinInt64
@@ -599,9 +951,19 @@ func (h *harness) filter(c *vlib.Ctx, a, b int64, field string) (map[string][]ra
 }
 
 func (h *harness) window(r Req) (map[string][]rec, int, error) {
+	if r.Form != "" {
+		return h.storeWindow(r)
+	}
+	every, offset := dur(r.Every), flux.ConvertDuration(time.Duration(r.Off))
+	if r.EveryMo > 0 {
+		every = values.MakeDuration(0, r.EveryMo, false)
+	}
+	if r.OffMo > 0 {
+		offset = values.MakeDuration(r.Off, r.OffMo, false)
+	}
 	spec := query.ReadWindowAggregateSpec{
 		ReadFilterSpec: h.filterSpec(r.A, r.B, r.Field),
-		Window:         execute.Window{Every: dur(r.Every), Period: dur(r.Every), Offset: flux.ConvertDuration(time.Duration(r.Off))},
+		Window:         execute.Window{Every: every, Period: every, Offset: offset},
 		Aggregates:     []plan.ProcedureKind{plan.ProcedureKind(r.Agg)},
 		CreateEmpty:    r.CE,
 		TimeColumn:     r.TC,
@@ -614,6 +976,10 @@ func (h *harness) window(r Req) (map[string][]rec, int, error) {
 	nwin := r.B - r.A + 2
 	if r.Every > 0 {
 		nwin = (r.B-r.A)/r.Every + 2
+	} else if r.EveryMo > 0 {
+		nwin = (r.B-r.A)/(r.EveryMo*28*24*int64(time.Hour)) + 2
+	} else if absT0 != 0 {
+		nwin = 1
 	}
 	return readTables(ti, h.t0, int(4*nwin+16))
 }
@@ -622,8 +988,9 @@ func (h *harness) window(r Req) (map[string][]rec, int, error) {
 // reference model
 
 type win struct {
-	S, E int64 // window clipped to the bounds
-	Rows []raw
+	S, E   int64 // window clipped to the bounds
+	US, UE int64 // the unclipped window
+	Rows   []raw
 }
 
 func floorDiv(a, b int64) int64 {
@@ -634,37 +1001,64 @@ func floorDiv(a, b int64) int64 {
 	return q
 }
 
-// expWindows lists the expected windows (times relative to t0; the absolute alignment of the windows is that of
-// t0+off from the epoch) in ascending order.
-func expWindows(t0 int64, raws []raw, a, b, every, off int64, ce bool) []win {
-	if every == 0 { // one window: the bounds
+// monthWindow returns the calendar window [start, stop) that contains the absolute time abs: window i starts at
+// 1970-01-01T00:00:00Z + (offMo + i*everyMo) months + offNs (UTC, time.Date arithmetic).
+func monthWindow(abs, everyMo, offMo, offNs int64) (int64, int64) {
+	start := func(i int64) int64 {
+		return time.Date(1970, time.Month(1+offMo+i*everyMo), 1, 0, 0, 0, 0, time.UTC).UnixNano() + offNs
+	}
+	tm := time.Unix(0, abs).UTC()
+	i := floorDiv(int64(tm.Year()-1970)*12+int64(tm.Month()-1)-offMo, everyMo)
+	for start(i) > abs {
+		i--
+	}
+	for start(i+1) <= abs {
+		i++
+	}
+	return start(i), start(i + 1)
+}
+
+// windowOf returns the unclipped window of the request that contains t (times relative to t0; the absolute alignment
+// of nanosecond windows is that of offset + k*every from the epoch).
+func windowOf(t0 int64, r Req, t int64) (ws, we int64) {
+	if r.EveryMo > 0 {
+		s, e := monthWindow(t0+t, r.EveryMo, r.OffMo, r.Off)
+		return s - t0, e - t0
+	}
+	ws = r.Off + floorDiv(t0+t-r.Off, r.Every)*r.Every - t0
+	return ws, ws + r.Every
+}
+
+// expWindows lists the expected windows (times relative to t0) in ascending order.
+func expWindows(t0 int64, raws []raw, r Req, ce bool) []win {
+	a, b := r.A, r.B
+	if r.inf() { // one window: the bounds
 		if len(raws) == 0 && !ce {
 			return nil
 		}
-		return []win{{a, b, raws}}
+		return []win{{S: a, E: b, US: a, UE: b, Rows: raws}}
 	}
-	wstart := func(t int64) int64 { return off + floorDiv(t0+t-off, every)*every - t0 }
 	byStart := map[int64]*win{}
 	var starts []int64
-	add := func(ws int64) *win {
+	add := func(ws, we int64) *win {
 		w, ok := byStart[ws]
 		if !ok {
-			w = &win{S: max(ws, a), E: min(ws+every, b)}
+			w = &win{S: max(ws, a), E: min(we, b), US: ws, UE: we}
 			byStart[ws] = w
 			starts = append(starts, ws)
 		}
 		return w
 	}
 	if ce {
-		for ws := wstart(a); ws < b; ws += every {
-			add(ws)
+		for ws, we := windowOf(t0, r, a); ws < b; ws, we = windowOf(t0, r, we) {
+			add(ws, we)
 		}
 	}
 	for _, p := range raws {
 		if p.T < a || p.T >= b {
 			continue // the filter read is bounded; defensive
 		}
-		w := add(wstart(p.T))
+		w := add(windowOf(t0, r, p.T))
 		w.Rows = append(w.Rows, p)
 	}
 	sort.Slice(starts, func(i, j int) bool { return starts[i] < starts[j] })
@@ -750,7 +1144,7 @@ func judge(t0 int64, r Req, raws []raw, obs []rec) []problem {
 		}
 		return probs
 	}
-	wins := expWindows(t0, raws, r.A, r.B, r.Every, r.Off, r.CE)
+	wins := expWindows(t0, raws, r, r.CE)
 	type wkey struct{ s, e int64 }
 	idx := map[wkey]int{}
 	for i, w := range wins {
@@ -786,18 +1180,18 @@ func judge(t0 int64, r Req, raws []raw, obs []rec) []problem {
 		w := wins[i]
 		seen[i]++
 		if seen[i] > 1 {
-			bad("duplicate-window", "window [%d,%d) reported %d times (%s)", w.S, w.E, seen[i], o)
+			bad("duplicate-window", "window [%s,%s) reported %d times (%s)", ft(w.S), ft(w.E), seen[i], o)
 			continue
 		}
 		if o.HasRow {
 			if r.TC == "" {
 				if o.S != w.S || o.E != w.E {
-					bad("row-start-stop", "row %s: _start/_stop differ from the clipped window [%d,%d)", o, w.S, w.E)
+					bad("row-start-stop", "row %s: _start/_stop differ from the clipped window [%s,%s)", o, ft(w.S), ft(w.E))
 				}
 			} else {
 				okB := func(s, e int64) bool { return (s == r.A && e == r.B) || (s == w.S && e == w.E) }
 				if !okB(o.S, o.E) || !okB(o.KS, o.KE) {
-					bad("row-start-stop", "row %s: _start/_stop are neither the query bounds [%d,%d) nor the clipped window [%d,%d)", o, r.A, r.B, w.S, w.E)
+					bad("row-start-stop", "row %s: _start/_stop are neither the query bounds [%s,%s) nor the clipped window [%s,%s)", o, ft(r.A), ft(r.B), ft(w.S), ft(w.E))
 				}
 			}
 		}
@@ -805,28 +1199,28 @@ func judge(t0 int64, r Req, raws []raw, obs []rec) []problem {
 			switch {
 			case !sel:
 				if !o.HasRow {
-					bad("empty-window-value", "empty window [%d,%d): table without a row, expected a row with %s", w.S, w.E, emptyVal(r.Agg))
+					bad("empty-window-value", "empty window [%s,%s): table without a row, expected a row with %s", ft(w.S), ft(w.E), emptyVal(r.Agg))
 				} else if r.Agg == "count" {
 					if o.ValNull || !eqVal(o.V, int64(0)) {
-						bad("empty-window-value", "empty window [%d,%d): %s, expected count 0", w.S, w.E, o)
+						bad("empty-window-value", "empty window [%s,%s): %s, expected count 0", ft(w.S), ft(w.E), o)
 					}
 				} else if !o.ValNull {
-					bad("empty-window-value", "empty window [%d,%d): %s, expected null", w.S, w.E, o)
+					bad("empty-window-value", "empty window [%s,%s): %s, expected null", ft(w.S), ft(w.E), o)
 				}
 			default:
 				if o.HasRow && !o.ValNull {
-					bad("empty-window-value", "empty window [%d,%d): selector row %s carries a value", w.S, w.E, o)
+					bad("empty-window-value", "empty window [%s,%s): selector row %s carries a value", ft(w.S), ft(w.E), o)
 				}
 			}
 			continue
 		}
 		want := aggregate(r.Agg, w.Rows)
 		if !o.HasRow || o.ValNull {
-			bad("wrong-value", "window [%d,%d) with raw rows %s: %s, expected %v", w.S, w.E, fmtRaws(w.Rows), o, want)
+			bad("wrong-value", "window [%s,%s) with raw rows %s: %s, expected %v", ft(w.S), ft(w.E), fmtRaws(w.Rows), o, want)
 			continue
 		}
 		if !eqVal(o.V, want) {
-			bad("wrong-value", "window [%d,%d) with raw rows %s: %s, expected %s = %v", w.S, w.E, fmtRaws(w.Rows), o, r.Agg, want)
+			bad("wrong-value", "window [%s,%s) with raw rows %s: %s, expected %s = %v", ft(w.S), ft(w.E), fmtRaws(w.Rows), o, r.Agg, want)
 			continue
 		}
 		if sel && r.TC == "" && o.HasTime && !o.TimeNull {
@@ -837,7 +1231,7 @@ func judge(t0 int64, r Req, raws []raw, obs []rec) []problem {
 				}
 			}
 			if !found {
-				bad("selector-time", "window [%d,%d) with raw rows %s: selected row %s is not one of them", w.S, w.E, fmtRaws(w.Rows), o)
+				bad("selector-time", "window [%s,%s) with raw rows %s: selected row %s is not one of them", ft(w.S), ft(w.E), fmtRaws(w.Rows), o)
 			}
 		}
 	}
@@ -847,9 +1241,9 @@ func judge(t0 int64, r Req, raws []raw, obs []rec) []problem {
 		}
 		switch {
 		case len(w.Rows) > 0:
-			bad("missing-window", "window [%d,%d) with raw rows %s is not reported (observed %s)", w.S, w.E, fmtRaws(w.Rows), fmtRecs(obs))
+			bad("missing-window", "window [%s,%s) with raw rows %s is not reported (observed %s)", ft(w.S), ft(w.E), fmtRaws(w.Rows), fmtRecs(obs))
 		case !sel || r.Force || r.TC == "":
-			bad("missing-empty-window", "createEmpty: empty window [%d,%d) is not reported (observed %s; expected windows %s)", w.S, w.E, fmtRecs(obs), fmtWins(wins))
+			bad("missing-empty-window", "createEmpty: empty window [%s,%s) is not reported (observed %s; expected windows %s)", ft(w.S), ft(w.E), fmtRecs(obs), fmtWins(wins))
 		}
 	}
 	return probs
@@ -869,7 +1263,7 @@ func fmtRaws(rs []raw) string {
 		if i > 0 {
 			sb.WriteByte(' ')
 		}
-		fmt.Fprintf(&sb, "%d:%v", p.T, p.V)
+		fmt.Fprintf(&sb, "%s:%v", ft(p.T), p.V)
 	}
 	sb.WriteByte(']')
 	return sb.String()
@@ -886,7 +1280,7 @@ func fmtWins(ws []win) string {
 			fmt.Fprintf(&sb, "… %d more", len(ws)-i)
 			break
 		}
-		fmt.Fprintf(&sb, "[%d,%d)x%d", w.S, w.E, len(w.Rows))
+		fmt.Fprintf(&sb, "[%s,%s)x%d", ft(w.S), ft(w.E), len(w.Rows))
 	}
 	sb.WriteByte(']')
 	return sb.String()
@@ -915,6 +1309,18 @@ func fmtRecs(rs []rec) string {
 // sigOf: violated clause / API / table implementation / the request features that select code paths. The buffer size
 // and the concrete window are not part of the class (the summary of the first case names them).
 func sigOf(r Req, M int, clause string) string {
+	if r.Form != "" {
+		kind, ev := "aggregate", "nanoseconds"
+		if isSelector(r.Agg) {
+			kind = "selector"
+		}
+		if r.inf() {
+			ev = "inf"
+		} else if r.EveryMo > 0 {
+			ev = "months"
+		}
+		return vlib.JoinSig("Store.WindowAggregate", clause, "form="+r.Form, kind, "every="+ev)
+	}
 	if clause == "runaway" {
 		// non-termination does not depend on the window or the time column: one class per table implementation
 		return vlib.JoinSig("ReadWindowAggregate", clause, impl(r), fmt.Sprintf("createEmpty=%v", r.CE))
@@ -924,9 +1330,10 @@ func sigOf(r Req, M int, clause string) string {
 		tc = "set"
 	}
 	parts := []string{"ReadWindowAggregate", clause, impl(r), "timeColumn=" + tc, fmt.Sprintf("createEmpty=%v", r.CE)}
-	if r.Every == 0 {
+	if r.inf() {
 		parts = append(parts, "every=inf")
 	}
+	// calendar-month windows share the classes of the nanosecond windows: the same table implementations serve both
 	return vlib.JoinSig(parts...)
 }
 
@@ -1028,7 +1435,7 @@ func (h *harness) runCase(c *vlib.Ctx, M int, r Req) bool {
 			}
 		}
 		outc[fmt.Sprintf("%s/timeColumn=%v/value-rows=%s/empty-windows=%s", im, r.TC != "", bucketN(rows), bucketN(nulls))]++
-		probs := judge(h.t0, r, raws, obs)
+		probs := judgeAny(h.t0, r, raws, obs)
 		for _, p := range probs {
 			c.Violation(sigOf(r, M, p.clause), fmt.Sprintf("%s, series s=%s with raw rows %s (dataset %+v, MaxPointsPerBlock=%d): %s", r, sd.Name, fmtRaws(raws), h.ds, M, p.detail), Case{h.ds, M, r, sd.Name})
 		}
@@ -1152,8 +1559,8 @@ func TestCheck(t *testing.T) {
 			}
 			raws, obs := res.raws[cs.Series], res.got[cs.Series]
 			fmt.Fprintf(&sb, "series s=%s\nraw rows of ReadFilter over the same bounds (time relative to T0): %s\n", cs.Series, fmtRaws(raws))
-			fmt.Fprintf(&sb, "expected windows: %s\nobserved: %s\n", fmtWins(expWindows(h.t0, raws, cs.Req.A, cs.Req.B, cs.Req.Every, cs.Req.Off, cs.Req.CE)), fmtRecs(obs))
-			probs := judge(h.t0, cs.Req, raws, obs)
+			fmt.Fprintf(&sb, "expected windows: %s\nobserved: %s\n", fmtWins(expWindows(h.t0, raws, cs.Req, cs.Req.CE)), fmtRecs(obs))
+			probs := judgeAny(h.t0, cs.Req, raws, obs)
 			for _, p := range probs {
 				fmt.Fprintf(&sb, "VIOLATED %s: %s\n", p.clause, p.detail)
 			}
